@@ -26,7 +26,7 @@ ASSUMPTIONS = ['the documented grammar is the one the generator writes and the s
 
 def plan(tier):
     return {'cases_per_shard': 500 if tier == 'quick' else 10000,
-            'time_cap_s': 45 if tier == 'quick' else 560}
+            'time_cap_s': 90 if tier == 'quick' else 560}
 
 
 def snap(model):
